@@ -1,4 +1,4 @@
-import Cppcms.C06.RefineA
+import Cppcms.C06.RefineB
 /-!
 # C06 — property theorems
 
@@ -382,6 +382,41 @@ theorem exposed_cookies_in_step (ctx : Ctx) (s : Sess) (st : Store) (next : Nat)
       jfind k J.exposed = if e.value.isEmpty then none else some e.value) :
     jfind k (J.applyAll cs).exposed = exposedLookup s.data k :=
   siSave_exposed_in_step ctx s st next st1 n1 cs kind h hkind J k hk hsd hsc hage hnames hstep
+
+/-- **A load starts from an empty working copy** (`set_cookie_adapter_and_reload` on one object).  After a
+first load with any cookie and any mutations, a reload with a second cookie — valid (another browser's), invalid,
+expired or absent — shows exactly what `Spec.specLoad` yields for the session the *second* cookie denotes in the
+store the first load left (`request_reads_spec` for a fresh object): what a request reads after a reload depends only
+on the presented cookie and the store; nothing of the first cookie's data survives. -/
+theorem reload_starts_from_empty_working_copy (ctx1 ctx2 : Ctx) (st : Store) (next : Nat) (ops1 ops2 : List Op)
+    (s1 : Sess) (st1 : Store) (cs1 : List SetCookie) (hL : siLoad ctx1 st = (.ok s1, st1, cs1))
+    (henv : ctx2.env = ctx1.env) (he : EnvOK ctx2.env) (hi : StoreInv ctx1.env st next) (ha : Admissible ctx2.env ctx2.cookie) :
+    (request2 ctx1 ctx2 st next ops1 ops2).out.reads = (request ctx2 st1 next []).reads ∧
+    match Spec.specLoad (numOf ctx2.env) (dfOf ctx2.cfg) (Spec.alive ctx2.now (absTok ctx2.cfg ctx2.env st1.recs ctx2.cookie)) with
+    | .error _ => (request2 ctx1 ctx2 st next ops1 ops2).out.reads = .error .badCast
+    | .ok w0 => ∃ r, (request2 ctx1 ctx2 st next ops1 ops2).out.reads = .ok r ∧ ReadsRel r w0 := by
+  have h1 := (request2_reads ctx1 ctx2 st next ops1 ops2 s1 st1 cs1 hL).1
+  have hinv : StoreInv ctx2.env st1 next := by
+    have := siLoad_inv ctx1 st next hi
+    rw [hL] at this
+    rw [henv]; exact this
+  refine ⟨h1, ?_⟩
+  rw [h1]
+  exact request_reads_spec ctx2 st1 next [] he hinv ha
+
+/-- **Network storage over any number of nodes is one store addressed by the sid**, because `save`, `load`
+and `remove` all select the node by the sid (`Gen.tcpRouteKeys`, regenerated from `session_tcp_storage.cpp`): asking the
+cluster for `id` the way `load` does returns the last payload saved under `id` (if not removed and not expired),
+whatever the hash and the number of nodes. -/
+theorem network_nodes_act_as_one_store (now t : Int) (c : Cluster) (hash : Bytes → Nat) (n : Nat) (sid id : Bytes) (to : Int) (d : Bytes)
+    (hroute : Gen.tcpRouteKeys = ["sid", "sid", "sid"]) (hd : ∀ i, NoDupSid (c i)) (ht : now ≤ t) :
+    clusterLookup t (clusterSave now c hash n sid to d) hash n id =
+      (if sid = id then aliveP t (some (to, d)) else clusterLookup t c hash n id) ∧
+    clusterLookup t (clusterRemove now c hash n sid) hash n id =
+      (if sid = id then none else clusterLookup t c hash n id) :=
+  ⟨cluster_save_lookup now t c hash n sid id to d hd ht, cluster_remove_lookup now t c hash n sid id hd ht⟩
+
+example : Gen.tcpRouteKeys = ["sid", "sid", "sid"] := by decide
 
 /-- **The 10 % renewal window** as the source has it (`delta < timeout_val_ * 0.1` with
 `delta = now + timeout_val_ - timeout_in_`): an unchanged renew/browser session is not rewritten while fewer
